@@ -431,6 +431,15 @@ func verifC11RunSeq(t *testing.T, seq verifC11Seq, emit func(verifC11Line)) {
 						UpdateTagOperationSetConverter(*c.Conv)(info)
 					}
 				})
+			case "restart":
+				// clean shutdown and a new Manager on the same directories: the tag table must come back as it was
+				mgr.Close()
+				m2, err := New(d["pcap"], d["index"], d["snapshot"], d["state"], d["converter"], d["watch"])
+				if err != nil {
+					callErr = fmt.Errorf("manager.New after Close: %w", err)
+				} else {
+					mgr = m2
+				}
 			case "breakstate":
 				// fault injection (replay only): saveState cannot create its file any more
 				if err := os.Rename(d["state"], path.Join(base, "state.bak")); err != nil {
